@@ -43,7 +43,11 @@ TrReset == /\ IsEvent("reset")
            /\ returned' = {} /\ cancelAt' = <<>> /\ dialedGen' = {} /\ run' = <<>> /\ failed' = {}
            /\ conns' = <<>> /\ closedAt' = <<>>
 
-TrAddr == /\ IsEvent("addr") /\ ainfo' = Put(ainfo, Cur.a, [relay |-> Cur.relay, fd |-> Cur.fd])
+\* low: the address has a documented better alternative among the peer's addresses (a /quic-v1 address on
+\* the same IP and UDP port as this /webtransport address, a /tcp address on the same IP and TCP port as
+\* this /ws address) and is therefore "filtered out" in the sense of the statement (computed by the harness
+\* from the address set, not taken from the code)
+TrAddr == /\ IsEvent("addr") /\ ainfo' = Put(ainfo, Cur.a, [relay |-> Cur.relay, fd |-> Cur.fd, low |-> Cur.low])
           /\ UNCHANGED <<caps, waiting, call, returned, cancelAt, dialedGen, run, failed, conns, closedAt>>
 TrConfig == /\ IsEvent("config") /\ caps' = [perpeer |-> Cur.perpeer, fdlimit |-> Cur.fdlimit]
             /\ UNCHANGED <<ainfo, waiting, call, returned, cancelAt, dialedGen, run, failed, conns, closedAt>>
@@ -81,7 +85,7 @@ TrConnClose == /\ (IsEvent("conn_close") \/ IsEvent("conn_closed"))
                /\ UNCHANGED <<ainfo, caps, waiting, call, returned, cancelAt, dialedGen, run, failed, conns>>
 
 \* the addresses a caller could use
-Usable(c) == {a \in DOMAIN ainfo : ~(call[c].force /\ ainfo[a].relay)}
+Usable(c) == {a \in DOMAIN ainfo : ~(call[c].force /\ ainfo[a].relay) /\ ~ainfo[a].low}
 
 Leave(c) == /\ waiting' = waiting \ {c}
             /\ returned' = returned \cup {c}
